@@ -513,3 +513,30 @@ macro_rules! c02_cmul {
         });
     };
 }
+
+/// exact predicates "the product of the two readings is not representable" (limb oracle; BITS a multiple of 64)
+pub fn umul_overflows<D: crate::util::Dig, const N: usize, const L: usize, const L2: usize>(ad: &[D; N], bd: &[D; N]) -> bool {
+    let zero = [0u64; L];
+    let p: [u64; L2] = limb_mul_add(&limbs_of::<D, N, L>(ad), &limbs_of::<D, N, L>(bd), &zero);
+    let mut hi = false;
+    let mut k = L;
+    while k < L2 { hi |= p[k] != 0; k += 1; }
+    hi
+}
+pub fn smul_overflows<D: crate::util::Dig, const N: usize, const M: usize, const L: usize, const L2: usize>(ad: &[D; N], bd: &[D; N]) -> bool {
+    use crate::util::*;
+    let (na, nb) = (dneg(ad), dneg(bd));
+    let ma: [D; N] = if na { XD::<D, M>::from_s(ad).neg().low() } else { *ad };
+    let mb: [D; N] = if nb { XD::<D, M>::from_s(bd).neg().low() } else { *bd };
+    let zero = [0u64; L];
+    let mp: [u64; L2] = limb_mul_add(&limbs_of::<D, N, L>(&ma), &limbs_of::<D, N, L>(&mb), &zero);
+    let negp = na != nb;
+    let mut high = false;
+    let mut k = L;
+    while k < L2 { high |= mp[k] != 0; k += 1; }
+    let top = mp[L - 1] >> 63 == 1;
+    let mut low_zero = mp[L - 1] << 1 == 0;
+    let mut k = 0;
+    while k + 1 < L { low_zero &= mp[k] == 0; k += 1; }
+    !(!high && (!top || (negp && low_zero)))
+}
